@@ -53,7 +53,8 @@ _c = fragcheck.FragCheck(
     profiles=[(3, {}, "mixed"), (2, {"direct_only": True}, "direct"),
               (1, {"max_subs": 5, "max_depth": 4}, "deep"),
               (1, {"max_stmts": 2, "max_depth": 1, "max_subs": 1}, "small"),
-              (2, {"max_subs": 4, "max_stmts": 3, "weights": {"call": 8, "ret": 3, "doloop": 2}}, "call-heavy")],
+              (2, {"max_subs": 4, "max_stmts": 3, "weights": {"call": 8, "ret": 3, "doloop": 2}}, "call-heavy"),
+              (1, {"lattice": True}, "call-lattice")],
     sizes={"quick": (32, 30), "thorough": (160, 120)},
     rule="fragment programs (flat checks, diamonds, loops, shared/nested subroutines, switch/match, gtxn/gtxns reads, "
          "hostile layouts) x representative groups; a (program, detector) pair is non-trivial when an accepting execution "
